@@ -128,6 +128,24 @@ CHECKS["C11"] = dict(level=MC, design="DESIGN.md section 6, C11 (claimed in part
          "location). z3 decides that bytes, symbol positions, block boundaries, CFG edges, expressions, aux tables, "
          "function tables and temporary-label names (compared exactly) are equal.")
 
+CHECKS["C10"] = dict(level=MC, design="DESIGN.md section 6, C10",
+    note="Bounds: split/join on one interval with 0-3 (quick) / 0-4 (thorough) blocks at arbitrary symbolic offsets and sizes "
+         "(z3 splits over all order/overlap/containment/zero-size/gap relations), 0-2 symbolic expressions and aux entries "
+         "at arbitrary offsets, default and custom tables, with/without an uninitialised tail; join of 2 intervals with "
+         "alignment 2^0..2^5, nop size 1 and 4, address residues enumerated, sizes symbolic; empty apply() on every layout "
+         "of the rewrite harness; alignment through a real rewrite on one x86-64 layout; align_address / "
+         "effective_alignment as bit-vectors for address < 2^64 and alignment/max 2^0..2^32. Excluded: a zero-sized block "
+         "at exactly the offset of another block (grouping depends on set iteration order). Trusted: symx + shims "
+         "(concrete replays), z3 and /usr/bin/z3 (must agree on the kernels).",
+    technique="symbolic execution of the real split/join/apply code (symx) + z3 LIA; AST-to-bit-vector translation of the two "
+              "alignment kernels decided on two solvers",
+    text="z3 decides, for all block geometries within the structural bounds, that split_byte_interval gives every group of "
+         "overlapping blocks its own interval with bytes, addresses, symbolic expressions and aux entries preserved, that "
+         "join_byte_intervals restores a fully initialised interval exactly, that joining with alignment yields aligned "
+         "blocks with a fill of whole nops after code / zeros after data covered by non-overlapping blocks and PaddingError "
+         "exactly when the fill is not a whole number of nops, that apply() with no modifications changes nothing but "
+         "leafFunctions, and that aligned blocks stay aligned through a rewrite (including alignment introduced by a patch).")
+
 NOT_YET = "check not built yet in this round (planned, see DESIGN.md section 6)"
 
 manifest = {
